@@ -23,7 +23,10 @@ def modelled : List String := [
   "utils.CheckBigIntInField",
   "utils.SetBigIntFromLEBytes",
   "utils.SwapEndianness",
-  "utils.<decls>@utils.go"
+  "utils.<decls>@utils.go",
+  "module.<deps>@go.mod",
+  "module.<deps>@go.sum",
+  "module.<deps>@vendor"
 ]
 
 theorem source_pinned : modelled.all (same I3.Gen.fingerprints) = true := by decide +kernel
@@ -31,6 +34,6 @@ theorem source_pinned : modelled.all (same I3.Gen.fingerprints) = true := by dec
 theorem function_set_pinned : (["keccak256.", "mimc7.", "utils."] : List String).all (sameKeys I3.Gen.fingerprints) = true := by
   decide +kernel
 
-theorem modelled_nonempty : 15 = modelled.length := by decide
+theorem modelled_nonempty : 18 = modelled.length := by decide
 
 end I3.Props.C08
